@@ -179,6 +179,21 @@ Theorem C07_tables_agree_partial : forall c, single_octet c -> forall t,
   end.
 Proof. exact enc_len_is_length. Qed.
 
+(* ---- what is returned TOGETHER WITH AN ERROR (the Go function has named results; the property is conditional on success).
+        Single-part path: one part (whatever the encoder returned) next to the error.  Multi-part path: the parts appended
+        before the loop stopped, compose_returned_multi.  They are exactly what a successful composition of the first k
+        segments returns (same reference and total, sequence 1..k), hence each fits 140 octets and is labelled as
+        C07_fits / C07_labels say; on success they are the parts.  A caller that ignores the error sends an incomplete
+        message, never a malformed one. ---- *)
+Theorem C07_returned_with_error : forall P plen w enc, (forall r, 0 < w r) -> forall ref t segs,
+  split w (140 - 1 - hdr_len ref) t = Ok segs -> length segs <= 254 ->
+  exists k, compose_parts P plen enc ref (N.of_nat (length segs) mod 256) 0 (firstn k segs)
+            = Ok (compose_returned_multi P plen w enc ref t).
+Proof. exact compose_returned_multi_prefix. Qed.
+Theorem C07_returned_on_success : forall P plen w enc, (forall r, 0 < w r) -> forall ref t parts,
+  compose P plen w enc ref t = Ok parts -> 140 < text_len w t -> compose_returned_multi P plen w enc ref t = parts.
+Proof. exact compose_returned_multi_ok. Qed.
+
 (* ---- non-vacuity -------------------------------------------------------------- *)
 (* 200 x 'a', reference 255 (the D11 case): 8-bit element, first part full with 153 septets = 134 octets *)
 Example C07_example_gsm7 :
